@@ -208,7 +208,7 @@ def check(run):
         "registry = remote.Handler (in-memory, request log, pass/fail/hold/off); the HTTP fetcher and its retries are C06/C18",
         "file granularity in the spec; after a failed walk any monotone chunk-cache outcome is accepted; requests are bounded by the hull of the missing chunks",
         "task manager abstract (C13): background fetch only proceeds while no prioritized task is active; silence period 5 ms",
-        "configured prefetch size 0 and a closed layer are not exercised; waits are classified with 3 s of slack above the timeout",
+        "configured prefetch size 0 and a closed layer are not exercised; waits are classified with 10 s of slack above the timeout",
     ]
 
     # ---- M (in a thread: runs while the layers are built and measured)
@@ -275,7 +275,7 @@ def check(run):
         # graphs of several 10^4 edges)
         cap = int(os.environ.get("C15_MAXWALKS", "0") or "0") or (150 if thorough else 16)
         if sid.startswith("big."):
-            cap = 40 if thorough else 4        # megabytes per read: mostly the directed walks below
+            cap = 12 if thorough else 4        # megabytes per read: mostly the directed walks below
         if cap and len(walks) > cap:
             # the first walks cover most new edges each; keep a seeded sample of the rest
             rest = walks[cap // 2:]
@@ -300,7 +300,7 @@ def check(run):
     log("[walks] %d walks, %d steps, every edge covered: %s" % (sum(len(v["walks"]) for v in scens), nsteps, exhaustive))
     payload = [{k: x for k, x in v.items() if k != "_sc"} for v in scens]
     for v in payload:
-        v["free"] = 10 if thorough else 2
+        v["free"] = 2 if v["id"].startswith("big.") else (10 if thorough else 2)
     rep = go_stage(run, "replay", payload, os.path.join(run.scratch, "replay.ndjson"), 12 if thorough else 8)
     free = {st: rep["free-" + st] for st in ("memory", "db")}
 
